@@ -383,6 +383,21 @@ def run_case(case, ctx, full_output=True):
         return res
     val, info = out if full_output else (out, None)
     res['value'], res['info'], res['dobj'] = np.asarray(val), info, dobj
+    # results the caller holds must not change when the object is used again (aliased scratch buffers)
+    if isinstance(val, np.ndarray) and val.size and case.get('layout', 'C') == 'C':
+        keep = [np.array(val, copy=True)] + ([np.array(v, copy=True) for v in info] if info is not None else [])
+        n_calls = len(rec.calls)
+        snap = {k: (list(v) if isinstance(v, list) else v) for k, v in _OBS.items()}
+        try:
+            with np.errstate(all='ignore'):
+                dobj(np.asarray(x, dtype=float) * 1.0625 + 0.03125)
+        except Exception:
+            pass
+        _OBS.clear()
+        _OBS.update(snap)          # (what the monitors saw of the extra call is not part of the judged call)
+        del rec.calls[n_calls:]
+        now = [np.asarray(val)] + ([np.asarray(v) for v in info] if info is not None else [])
+        res['changed_by_later_call'] = any(a.tobytes() != b.tobytes() for a, b in zip(keep, now))
     res['f_finite'] = all(c.out_finite is not False for c in rec.calls)
     return res
 
